@@ -488,6 +488,22 @@ def step (line : String) : String :=
       let paths := (files.map (·.1) ++ ts.flatMap fun t => [t.p, t.tmp]).eraseDups
       (Json.mkObj [("ok", Json.arr (paths.map fun q => Json.arr #[Json.num (JsonNumber.fromNat q),
           match fs' q with | some c => Json.str (String.ofList c) | none => Json.null]).toArray)]).compress
+    | .ok "fs_buffered" =>
+      -- one write of `emit.file` with buffered I/O: old: content|null, src: text, fault: null | [i, k] -> [target, tmp]
+      let old : Option (List Char) := match j.getObjVal? "old" with
+        | .ok (Json.str c) => some c.toList
+        | _ => none
+      let src : List Char := ((j.getObjValAs? String "src").toOption.getD "").toList
+      let fault : Option (Nat × Nat) := match j.getObjVal? "fault" with
+        | .ok (Json.arr #[Json.num i, Json.num k]) => some (i.mantissa.toNat, k.mantissa.toNat)
+        | _ => none
+      let fs0 : FsSync.FS := fun q => if q = 1 then old else none
+      let st := FsSync.Buffered.brun { fs := fs0 } (FsSync.Buffered.atomicB 0 1 src) fault
+      let out : FsSync.FS := match fault with
+        | some f => if f.1 < 4 then FsSync.Buffered.cleanup st 0 else st.fs
+        | none => st.fs
+      let show_ (o : Option (List Char)) : Json := match o with | some c => Json.str (String.ofList c) | none => Json.null
+      (Json.mkObj [("ok", Json.arr #[show_ (out 1), show_ (out 0)])]).compress
     | _ => "{\"bad\":\"op\"}"
 
 partial def loop (h : IO.FS.Stream) : IO Unit := do
